@@ -7,7 +7,8 @@ RULE = ('(a) generated programs (valid and faulty) with non-ASCII characters in 
         'verdict, codes and line:col positions must be identical; (b) every byte value 0x00-0xFF placed in a comment, in '
         'a string, between tokens and inside an identifier (1024 files, exhaustive) through `ironplcc tokenize`, compared '
         'token for token with the Lean model (decoder cascade + lexer); (c) random binary files: no crash, positions inside '
-        'the decoded text; non-trivial = file with a non-ASCII byte; distinct = distinct (stream, encoding, byte/context '
+        'the decoded text; (d) a program and a library file in one invocation, every pair of the five encodings, both argument orders, as '
+        'arguments and as a directory: same result for all; non-trivial = file with a non-ASCII byte; distinct = distinct (stream, encoding, byte/context '
         'or program)')
 
 NONASCII = ['é', 'ü', 'ß', 'Ø', '€', '™', 'š', '日本', '😀', 'Ω']
@@ -36,6 +37,16 @@ def run_file(action, data):
     with cli.Workdir() as w:
         p = w.write('src/file.st', data)
         r = cli.run_cli([action, p])
+    r['diags'] = cli.parse_diags(r['stderr'])
+    r['ok_line'] = any(l.strip() == 'OK' for l in r['stdout'].split('\n'))
+    return r
+
+
+def run_set(action, files, as_dir):
+    """files: list of (name, bytes) -> the command on the files in that order, or on the directory holding them"""
+    with cli.Workdir() as w:
+        paths = [w.write('src/' + n, d) for n, d in files]
+        r = cli.run_cli([action] + ([os.path.join(w.path, 'src')] if as_dir else paths))
     r['diags'] = cli.parse_diags(r['stderr'])
     r['ok_line'] = any(l.strip() == 'OK' for l in r['stdout'].split('\n'))
     return r
@@ -108,6 +119,41 @@ def run(ctx):
         data = bytes(rng.getrandbits(8) for _ in range(n))
         if rng.random() < 0.3: data = rng.choice([b'\xff\xfe', b'\xfe\xff', b'\xef\xbb\xbf']) + data
         jobs.append(('random', i, None, rng.choice(['check', 'tokenize']), data))
+    # ---------------- (d) two files in one invocation, every pair of encodings, both orders, as arguments and as a directory:
+    #                    how one file is stored must not change how the other is read
+    pair_jobs = []
+    lib_text = "FUNCTION_BLOCK N8800\n  VAR\n    N8801 : STRING := '\u00e9 \u20ac';   (* \u00fc\u00df *)\n  END_VAR\nEND_FUNCTION_BLOCK\n"
+    cand = [(k, t) for (k, t) in progs if 'cp1252' in encodings(t) and any(ord(c) > 127 for c in t) and k != 'lexical-error-tail']
+    for pi, (kind, txt) in enumerate(cand[:(2 if ctx.quick() else 12)]):
+        for e1, d1 in encodings(lib_text).items():
+            for e2, d2 in encodings(txt).items():
+                for libname in ('a_lib.st', 'z_lib.st'):
+                    for as_dir in (False, True):
+                        files = sorted([(libname, d1), ('m_main.st', d2)]) if as_dir or libname[0] == 'a' else [('m_main.st', d2), (libname, d1)]
+                        for action in (('check', 'echo') if (e1, e2) != ('utf8', 'utf8') and as_dir else ('check',)):
+                            pair_jobs.append((pi, e1, e2, libname, as_dir, action, files))
+    with cf.ThreadPoolExecutor(14) as ex:
+        pair_res = list(ex.map(lambda j: run_set(j[5], j[6], j[4]), pair_jobs))
+    pref = {}
+    for j, r in zip(pair_jobs, pair_res):
+        pi, e1, e2, libname, as_dir, action, files = j
+        ctx.evaluations += 1
+        ctx.count(f'pair:{action}'); ctx.count(f'pair-encodings:{e1}+{e2}')
+        ctx.feature(('pair', pi, e1, e2, libname, as_dir, action))
+        show = {'stream': 'pair', 'library_file': [libname, e1], 'main_file': ['m_main.st', e2], 'as_directory': as_dir, 'action': action,
+                'files_hex': [(n, d.hex() if len(d) < 600 else d[:600].hex() + '…') for n, d in files]}
+        if r['rc'] not in (0, 1):
+            ctx.violations.append({'stream': 'pair', 'case': show, 'impl': f"exit={r['rc']} " + cli.strip_ansi(r['stderr'])[-300:], 'model': None,
+                                   'what': f'`ironplcc {action}` crashed or hung (status {r["rc"]})'}); continue
+        norm = lambda n: 'lib' if n in ('a_lib.st', 'z_lib.st') else n
+        sig = (r['rc'], tuple(sorted((d[0], norm(d[1]) if d[1] else d[1], d[2], d[3]) for d in r['diags'])),
+               None if action == 'check' else tuple(sorted(l for l in r['stdout'].split('\n') if "'" in l)))
+        key = (pi, action)
+        if key not in pref: pref[key] = (sig, (e1, e2, libname, as_dir))
+        elif pref[key][0] != sig:
+            ctx.violations.append({'stream': 'pair', 'case': show, 'impl': str(sig)[:400], 'model': str(pref[key][0])[:400],
+                                   'what': f'two files stored as {e1} + {e2} ({"directory" if as_dir else "arguments"}, library file {libname}) give a different result than stored as '
+                                           f'{pref[key][1][0]} + {pref[key][1][1]} ({"directory" if pref[key][1][3] else "arguments"}, {pref[key][1][2]})'})
     with cf.ThreadPoolExecutor(14) as ex:
         res = list(ex.map(lambda j: run_file(j[3], j[4]), jobs))
     model = core.run_lines(core.PLCDRV, ['decodelex ' + j[4].hex() for j in jobs], jobs=8) if ctx.model_available else [None] * len(jobs)
